@@ -50,6 +50,14 @@ def gen(args):
             A = rng.integers(0, 3, size=(N, N + 1)) if tie_rich else rng.integers(-6, 7, size=(N, N + 1))
             if np.linalg.matrix_rank(A) == N:     # input conditioning only
                 break
+        blockdata = family != "fps" and N == 6 and di % 3 == 1
+        if blockdata:
+            # two mutually orthogonal blocks of equal strength (distinct items, doubly degenerate leading singular value): which
+            # vector of the leading eigenspace the iterative solver returns depends on its start vector only - the same for
+            # every recomputation, so the chain still equals the cold fit
+            B1 = np.array([[2, 1, 0], [0, 1, 2]]); B2 = np.array([[1, 2, 0], [1, 0, 2]])
+            A = np.block([[B1, np.zeros((2, 3), int)], [np.zeros((2, 3), int), B2]]).T * int(rng.integers(1, 4))
+            A = A[rng.permutation(6)]
         X = (A if axis == 0 else A.T).astype(float)
         if name == "VoronoiFPS" and di % 2 == 1:
             # clustered points of different norms in two or three dimensions: the pruned update really skips cells here
@@ -71,6 +79,8 @@ def gen(args):
         unit = 16 if name == "sPCovFPS" else (2 if exact else (10000 if family == "fps" else 1000000))
         tol = 0 if exact else 3
         nmax = N if family == "fps" else N - 1
+        if blockdata:
+            nmax = 3            # rank 4: the number of selections stays below the rank (the property's precondition)
         kw0 = dict(extra)
         if family == "fps":
             kw0["initialize"] = int(di % N)
